@@ -38,9 +38,21 @@ type c15Prog struct {
 	srcs  []string
 	names []string
 	path  string
+	hist  int // >0: import history hist-1 of the C09 workload (driven through the API, not from source)
+	seed  uint64
 }
 
+// c15Program: every fifth program is an import history of the C09 workload (1-3 files, imports with equal base names
+// from up to five paths, declarations named like imports, discarded references): the part of the output whose bytes
+// depend on name allocation. The others are source-driven programs (c15SrcProgram).
 func c15Program(seed uint64, i int) c15Prog {
+	if i%5 == 4 {
+		return c15Prog{key: fmt.Sprintf("import history seed=%d case=%d", seed, i/5), hist: i/5 + 1, seed: seed}
+	}
+	return c15SrcProgram(seed, i-i/5)
+}
+
+func c15SrcProgram(seed uint64, i int) c15Prog {
 	r := h.NewRand(seed, 15, uint64(i))
 	switch i % 4 {
 	case 0: // library package whose exported signatures mention several XGo packages
@@ -105,6 +117,22 @@ func hashFiles(o *drive.Outcome) string {
 var c15Sink [][]byte
 
 func c15BuildOnce(p c15Prog, u *ref.Universe) (string, *drive.Outcome) {
+	if p.hist > 0 {
+		if !c09Added[u] {
+			u.AddSource(fxCFmt, fxCFmtSrc)
+			u.AddSource(fxDFmt, fxCFmtSrc)
+			u.AddSource(fxCUtil, fxCUtilSrc)
+			c09Added[u] = true
+		}
+		o, pkg, _ := c09Build(u, "quick", p.seed, p.hist-1)
+		if o.Status == "accepted" {
+			o.Write(u, pkg, "main")
+		}
+		if o.Status != "accepted" {
+			return "status:" + o.Status + ":" + normMsg(o.Msg), o
+		}
+		return hashFiles(o), o
+	}
 	o := drive.Build(u, p.srcs, drive.Opt{NoCompare: true, FileNames: p.names, PkgPath: p.path})
 	if o.Status != "accepted" {
 		return "status:" + o.Status + ":" + normMsg(o.Msg), o
@@ -138,6 +166,9 @@ func c15Run(tier string, seed uint64, i int) []h.Result {
 	}
 	r := h.NewRand(seed, 1515, uint64(i))
 	nrep := 6
+	if p.hist > 0 {
+		nrep = 24 // name allocation that follows a map order differs in a minority of builds only
+	}
 	fps := map[string]int{first: 1}
 	for k := 1; k < nrep; k++ {
 		// perturb the heap between builds: garbage + forced collections move map layouts and addresses
@@ -201,7 +232,7 @@ func init() {
 	_ = gen.FxA
 	h.Register(&h.Check{
 		ID: "C15", Level: "exploration",
-		Rule: "the same operation sequence (front-end driven program) is built 6 times in one process — alternating a warm importer and a fresh importer, with seed-chosen garbage allocation and forced GCs between builds — and, for every 12th program (thorough: every 4th), " +
+		Rule: "the same operation sequence (front-end driven program; every fifth case an API-driven import history of the C09 workload — 1-3 files, up to five imports with equal base names, declarations named like imports, discarded references — built 24 times) is built 6 times in one process — alternating a warm importer and a fresh importer, with seed-chosen garbage allocation and forced GCs between builds — and, for every 12th program (thorough: every 4th), " +
 			"3 more times in fresh processes with GOGC=1/400/off, GOMAXPROCS=1/16/3 and different heap pre-allocation; SHA-256 of every written file must be identical across all builds. Programs: library packages whose exported signatures mention 3-8 extension (XGo) packages " +
 			"with overload families (fixture packages + gogen's own internal/foo, overload, builtin), generated multi-file programs (several imports per file), corpus programs, deep generated programs (many labels/closures). " +
 			"non-trivial = accepted program replayed; distinct by program",
